@@ -22,6 +22,7 @@ import Fir.Model.SimdU16x4A
 import Fir.Model.SimdU16x2A
 import Fir.Model.SimdU16x1A
 import Fir.Model.SimdU8x1A
+import Fir.Model.SimdU8x2A
 namespace Fir
 
 /-- C02 tolerance between two back-ends: integers identical, f32 a few ulps of a re-associated f64 sum -/
@@ -187,12 +188,13 @@ def handleKernel (fs : List (String × String)) : String :=
       let lane2 : Option String :=
         if p.kind == .u8 ∧ p.n == 2 ∧ (ext == "sse4" ∨ ext == "avx2") ∧ pass == "h" ∧ got.size == dw * dh * 2 then Id.run do
           let q := normalize16 c
-          -- AVX2: only the rows of four-row blocks (two rows per register, each half = the SSE4.1 row) are modelled lane by lane
-          for y in [0:(if ext == "avx2" then dh - dh % 4 else dh)] do
+          -- AVX2: rows of four-row blocks keep two rows per register (each half = the SSE4.1 row); leftover rows go through `pixelA`
+          for y in [0:dh] do
             let row : List Int := (List.range (sw * 2)).map fun i => src[(offset + y) * sw * 2 + i]!
             for x in [0:dw] do
               let (start, ks) := q.chunks.getD x (0, #[])
               let px := if y < dh - dh % 4 then SimdU8x2.pixelR q.precision row start ks.toList
+                        else if ext == "avx2" then SimdU8x2A.pixelA q.precision row start ks.toList
                         else SimdU8x2.pixel q.precision row start ks.toList
               for ch in [0:2] do
                 if px.getD ch 0 ≠ got[(y * dw + x) * 2 + ch]! then
